@@ -20,7 +20,7 @@ HARNESSES = {
     # (measured: neither finished in 15 minutes -- std HashMap under CBMC) and are not kept
     # b_c09_int_vector_remove / b_c09_int_vector_sort / b_c09_float_vector_sort_total exist in kani/vector.rs.inc but are not run:
     # std's sort and Vec::retain did not finish in CBMC within 400 s even for length <= 2 (measured) -> those bodies stay undecided
-    'C09': ['b_c09_bool_vector_count', 'b_c09_int_vector_sum', 'b_c09_int_vector_bool_index', 'b_c09_from_int_array'],
+    'C09': ['b_c09_bool_vector_count', 'b_c09_int_vector_sum', 'b_c09_int_vector_bool_index', 'b_c09_from_int_array', 'b_c09_float_vector_sum'],
     'C01': ['b_c09_bool_vector_count', 'b_c09_int_vector_sum', 'b_c09_int_vector_bool_index', 'l2_normal_new', 'l1_active_bits', 'l4_f32_constants'],
 }
 WHAT = {
@@ -39,6 +39,7 @@ WHAT = {
     'l2_normal_new': 'float lemma L2 (axiom ax_normal_std_ok): rand_distr Normal::new(m, s).is_ok() == s.is_finite(); all f32 pairs',
     'b_c09_bool_vector_count': 'BOUNDED (len<=3): BOOLVECTOR.COUNT pushes the number of true elements',
     'b_c09_int_vector_sum': 'BOUNDED (len<=3): INTVECTOR.SUM pushes the wrapping sum',
+    'b_c09_float_vector_sum': 'BOUNDED (len<=3): FLOATVECTOR.SUM equals the left-to-right f32 fold from std\'s empty sum, bit for bit (the assumption behind rewrite R14)',
     'b_c09_int_vector_remove': 'BOUNDED (len<=2): INTVECTOR.REMOVE removes exactly the occurrences of the operand',
     'b_c09_int_vector_bool_index': 'BOUNDED (len<=3): INTVECTOR.BOOLINDEX pushes the indices of the true elements',
     'b_c09_int_vector_sort': 'BOUNDED (len<=2): INTVECTOR.SORT*ASC yields an ascending vector of the same length',
@@ -84,6 +85,7 @@ def rewrites_selftest(repo, key):
         for m in srcs:
             if srcs[m] != o[m]:
                 open(os.path.join(d, 'src', 'push', m + '.rs'), 'w').write(o[m]); n += 1
+        open(os.path.join(d, 'src', 'lib.rs'), 'a').write(gen.SELFTEST_SHIM)     # the one helper R14 refers to (std's empty f32 sum)
         log = run_group(['cargo', 'test', '--offline'], d, dict(os.environ, CARGO_NET_OFFLINE='true', CARGO_TARGET_DIR=os.path.join(d, 'target')), 1200)
         m = re.search(r'test result: (\w+)\. (\d+) passed; (\d+) failed', log)
         out = dict(ok=bool(m and m.group(1) == 'ok' and int(m.group(3)) == 0 and int(m.group(2)) > 0), rewritten_modules=n, stats=st,
